@@ -238,6 +238,17 @@ class ClientSubRun:
         d0 = self.last_delivered if self.last_delivered is not None else self.probe()
         self.op_start_seq = self.w.net.seq
         racing = ch.flag("op.racing", 1, 3)
+        if racing and kind in ("subscribe", "unsubscribe", "pause", "resume"):
+            # messages of every type from a second publisher are in flight before the request is even written
+            if getattr(self, "prober2", None) is None:
+                self.prober2 = Actor(self.w, "prober2")
+                self.prober2.open()
+                self.prober2.handshake("v2v1", req_id=71, name=b"prober2")
+                self.w.quiesce()
+                self.drain()
+                self.op_start_seq = self.w.net.seq
+            for t in self.uni:
+                self.prober2.send_raw(self.prober2.frame(t, b"e"))
         self.res.probes[f"op_{kind}"] += 1
         if s0 == {ALL}:
             self.res.probes["op_while_sub_all"] += 1
